@@ -131,6 +131,9 @@ def fn_verus_name(rec):
             if re.match(r"^[A-Za-z_]\w*$", t) and t not in ("mut", "dyn", "where"):
                 ty = t
                 break
+    ext = {"Vec": "alloc::vec::Vec", "Box": "alloc::boxed::Box"}
+    if kind != "trait" and ty in ext:
+        return "%s::%s" % (ext[ty], rec["name"])
     return "%s::%s::%s" % (base, ty, rec["name"])
 
 
@@ -319,6 +322,7 @@ def main():
     vr = run_verus(repo_src, tag, rlimit=(30 if tier == "thorough" else None))
 
     violations = []     # dicts: obligation, msg, detail, fn
+    assumed_fns = []
     undecided = []
     known, fixed = load_known()
     functions = []
@@ -365,7 +369,11 @@ def main():
             frec = {"fn": fid, "repo_line": r["line"], "mode": r["mode"], "verus_name": name,
                     "ensures_clauses": len(clauses), "time_us": vr.fn_time_us.get(name, 0),
                     "back_end": "verus/z3"}
-            if ds:
+            if r.get("assumed"):
+                frec["result"] = "assumed (external_body: contract trusted, body not verified yet)"
+                assumed_fns.append(fid)
+                obligations -= n_ob
+            elif ds:
                 frec["result"] = "failed"
                 failed_clauses = set()
                 for d in ds:
@@ -467,6 +475,7 @@ def main():
         "verus": {"verified_items": vr.total_verified, "errors": vr.total_errors, "smt_ms": vr.smt_ms, "wall_s": round(vr.wall_s, 2)},
         "extraction": {"rewrites": rewrites, "template": "contracts/toodee.vt", "repo_src_hash": repo_src_hash(repo_src)},
         "bounded": kani_info,
+        "assumed_contracts": assumed_fns,
         "exhaustive": False,
         "undecided": undecided,
     }
